@@ -58,7 +58,7 @@ Section ErrText.
   Notation execute := (execute cfg parse_float regex_ok).
   Notation exec_action := (exec_action cfg parse_float regex_ok).
 
-  Theorem garbage_after_path l c t : forallb fstep_ok l = true -> forallb (fstep_okp parse_float) l = true -> closer c ->
+  Theorem garbage_after_path l c t : forallb fstep_ok l = true -> forallb (fstep_okp parse_float regex_ok) l = true -> closer c ->
     parse_with cfg parse_float regex_ok G (fchain_path l ++ c :: t) = ParseErr (ESyntax (1 + List.length (render_fsteps l)) RUnrecognized).
   Proof.
     intros Hs Hokp Hc. unfold parse_with, parse_from.
